@@ -415,9 +415,44 @@ def u64_edge_cases():
                     yield case_line(rd, DEFAULT_MAX, None, total, L.exts()), "u64-edge"
 
 
+def big_box_truncations(readers=("cursor", "strict", "lenient")):
+    """a moov / ftyp-following box whose payload is far larger than any internal piece size (64 KiB multiples), complete and cut at points
+    around those multiples: the whole payload is ONE read whose short end is a parse error (TruncatedBox), whatever its size (sparse
+    inputs: only the headers and the trak are materialised, the large child is zero bytes)"""
+    f = F()
+    trak = simple_moov([(4, [20, 30])])[8:]
+    md = box(b"mdat", b"abcdefg")
+    for n in (70000, 140000, 300000):
+        udta_hdr = be32(8 + n) + b"udta"
+        for udta_first in (False, True):
+            pl_present = (udta_hdr if udta_first else trak + udta_hdr)
+            pl_len = len(trak) + 8 + n
+            moov_hdr = be32(8 + pl_len) + b"moov"
+            for moov_last in (True, False):
+                head = f + md if moov_last else f
+                base = len(head) + 8                                  # offset of the moov payload
+                exts = [(0, head + moov_hdr + pl_present)]
+                if udta_first:
+                    exts.append((base + 8 + n, trak))
+                full = base + pl_len
+                tail = b"" if moov_last else md
+                if tail:
+                    exts.append((full, tail))
+                cuts = {full + len(tail)}
+                for m in (65536, 131072, 262144):
+                    if m < pl_len:
+                        cuts |= {base + m - 1, base + m, base + m + 1}
+                cuts |= {full - 1, base + 40}
+                for total in sorted(cuts):
+                    ex = [(o, d[: max(0, total - o)]) for o, d in exts if o < total]
+                    for rd in readers:
+                        yield case_line(rd, DEFAULT_MAX, None, total, ex), "big-box-truncation"
+
+
 def standard_stream(run, rewrite_n, mut_n, seq_len, seq_sample=None):
     rng = run.rng
     yield from u64_edge_cases()
+    yield from big_box_truncations(("cursor", "strict") if run.tier == "quick" else ("cursor", "strict", "lenient"))
     yield from huge_pad_cases()
     yield from displacement_boundary()
     for lay in seed_layouts(rng):
